@@ -619,3 +619,32 @@ func ruleCloseSites(p *Program, r *Report, fieldSpec string, allowed map[string]
 		}
 	}
 }
+
+// ruleCallUnderLock: every call of callee inside fn happens with the mutex held (at least `need`).
+func ruleCallUnderLock(p *Program, r *Report, la *lockAnalysis, muName, fname, calleeSubstr string, need int, why string) {
+	fn := p.Func(fname)
+	if fn == nil {
+		r.fail("anchor", fname, "", "function cannot be resolved")
+		return
+	}
+	c := newCanon(p, fn)
+	n := 0
+	for _, b := range fn.Blocks {
+		for _, in := range b.Instrs {
+			call, ok := in.(*ssa.Call)
+			if !ok || !strings.Contains(c.calleeName(call.Common()), calleeSubstr) {
+				continue
+			}
+			n++
+			cons := fmt.Sprintf("%s calls %s under %s", short(fname), calleeSubstr, muName)
+			if la.at[in] >= need {
+				r.pass("call-under-lock", cons, p.pos(call.Pos()), why)
+			} else {
+				r.fail("call-under-lock", cons, p.pos(call.Pos()), fmt.Sprintf("called with lock state %d, needs %d: %s", la.at[in], need, why))
+			}
+		}
+	}
+	if n == 0 {
+		r.fail("call-under-lock", short(fname)+" calls "+calleeSubstr, p.pos(fn.Pos()), "call not found (anchor lost)")
+	}
+}
